@@ -28,7 +28,9 @@ fn main() {
         "yata-random" => {
             let nb: usize = opt.get("behaviours").and_then(|s| s.parse().ok()).unwrap_or(10);
             let ops: usize = opt.get("ops").and_then(|s| s.parse().ok()).unwrap_or(20);
-            match yx::yata::random(&opt["out-sched"], &opt["out"], seed, nb, ops) {
+            let ext: Vec<String> = opt.get("ext").map(|s| s.split(',').filter(|x| !x.is_empty()).map(|x| x.to_string()).collect()).unwrap_or_default();
+            let gc_off = opt.get("gc-off").map(|s| s == "1").unwrap_or(false);
+            match yx::yata::random(&opt["out-sched"], &opt["out"], seed, nb, ops, &ext, gc_off) {
                 Ok((nb, nev)) => println!("{{\"behaviours\": {}, \"events\": {}}}", nb, nev),
                 Err(e) => {
                     eprintln!("yx: {}", e);
